@@ -240,3 +240,157 @@ Proof.
   rewrite Z.eqb_refl. repeat split; auto.
   apply zrange_from_single.
 Qed.
+
+(* ------------------------------------------------------------------ spots: order, membership *)
+
+Definition slt (a b : spot) : Prop := fst a < fst b \/ (fst a = fst b /\ snd a < snd b).
+
+Lemma spot_eqb_eq : forall a b, spot_eqb a b = true <-> a = b.
+Proof.
+  intros [a1 a2] [b1 b2]. unfold spot_eqb. simpl. rewrite andb_true_iff, !Z.eqb_eq.
+  split; [intros [-> ->]; reflexivity | intros H; inversion H; auto].
+Qed.
+
+Lemma spot_eqb_refl : forall a, spot_eqb a a = true.
+Proof. intros. apply spot_eqb_eq. reflexivity. Qed.
+
+Lemma spot_ltb_slt : forall a b, spot_ltb a b = true <-> slt a b.
+Proof.
+  intros [a1 a2] [b1 b2]. unfold spot_ltb, slt. simpl.
+  rewrite orb_true_iff, andb_true_iff, !Z.ltb_lt, Z.eqb_eq. tauto.
+Qed.
+
+Lemma slt_irrefl : forall a, ~ slt a a.
+Proof. intros a [H | [_ H]]; lia. Qed.
+
+Lemma slt_trans : forall a b c, slt a b -> slt b c -> slt a c.
+Proof. unfold slt. intros. lia. Qed.
+
+Lemma slt_total : forall a b, slt a b \/ a = b \/ slt b a.
+Proof.
+  intros [a1 a2] [b1 b2]. unfold slt. simpl.
+  destruct (Z.lt_trichotomy a1 b1) as [H | [H | H]]; [left; lia | | right; right; lia].
+  destruct (Z.lt_trichotomy a2 b2) as [K | [K | K]]; [left; lia | right; left; congruence | right; right; lia].
+Qed.
+
+Lemma smem_In : forall s l, smem s l = true <-> In s l.
+Proof.
+  intros. unfold smem. rewrite existsb_exists. split.
+  - intros [x [H E]]. apply spot_eqb_eq in E. subst. exact H.
+  - intros H. exists s. split; auto. apply spot_eqb_refl.
+Qed.
+
+Lemma smem_false : forall s l, smem s l = false <-> ~ In s l.
+Proof. intros. rewrite <- smem_In. destruct (smem s l); split; congruence. Qed.
+
+Lemma zmem_In : forall x l, zmem x l = true <-> In x l.
+Proof.
+  intros. unfold zmem. rewrite existsb_exists. split.
+  - intros [y [H E]]. apply Z.eqb_eq in E. subst. exact H.
+  - intros H. exists x. split; auto. apply Z.eqb_refl.
+Qed.
+
+(* ------------------------------------------------------------------ sorted(set(...)) *)
+
+Lemma sinsert_In : forall s l x, In x (sinsert s l) <-> x = s \/ In x l.
+Proof.
+  induction l as [| y r IH]; intros x; simpl.
+  - intuition.
+  - destruct (spot_ltb s y) eqn:L.
+    + simpl. intuition.
+    + destruct (spot_eqb s y) eqn:E.
+      * apply spot_eqb_eq in E. subst. simpl. intuition.
+      * simpl. rewrite IH. intuition.
+Qed.
+
+Lemma sinsert_sorted : forall s l, StronglySorted slt l -> StronglySorted slt (sinsert s l).
+Proof.
+  induction l as [| y r IH]; intros S; simpl.
+  - constructor; constructor.
+  - inversion S as [| ? ? S' Hy]; subst.
+    destruct (spot_ltb s y) eqn:L.
+    + apply spot_ltb_slt in L. constructor; auto. constructor; auto.
+      eapply Forall_impl; [| exact Hy]. intros z Hz. eapply slt_trans; eauto.
+    + destruct (spot_eqb s y) eqn:E; auto.
+      constructor; auto.
+      rewrite Forall_forall. intros z Hz. apply sinsert_In in Hz. destruct Hz as [-> | Hz].
+      * destruct (slt_total s y) as [H | [H | H]]; auto.
+        -- apply spot_ltb_slt in H. congruence.
+        -- subst. rewrite spot_eqb_refl in E. discriminate.
+      * rewrite Forall_forall in Hy. auto.
+Qed.
+
+Lemma sort_spots_In : forall l x, In x (sort_spots l) <-> In x l.
+Proof.
+  induction l; intros; simpl. tauto.
+  rewrite sinsert_In, IHl. intuition.
+Qed.
+
+Lemma sort_spots_sorted : forall l, StronglySorted slt (sort_spots l).
+Proof. induction l; simpl. constructor. apply sinsert_sorted. auto. Qed.
+
+Lemma sorted_NoDup : forall l, StronglySorted slt l -> NoDup l.
+Proof.
+  induction l; intros S. constructor.
+  inversion S as [| ? ? S' H]; subst. constructor; auto.
+  intros Hin. rewrite Forall_forall in H. apply (slt_irrefl a). auto.
+Qed.
+
+Lemma sort_spots_NoDup : forall l, NoDup (sort_spots l).
+Proof. intros. apply sorted_NoDup, sort_spots_sorted. Qed.
+
+(* two duplicate-free lists with the same elements have the same length *)
+Lemma NoDup_same_length : forall (A : Type) (l1 l2 : list A),
+  NoDup l1 -> NoDup l2 -> (forall x, In x l1 <-> In x l2) -> length l1 = length l2.
+Proof. intros. apply Permutation_length. apply NoDup_Permutation; auto. Qed.
+
+Lemma NoDup_app_disj : forall (A : Type) (l1 l2 : list A),
+  NoDup l1 -> NoDup l2 -> (forall x, In x l1 -> In x l2 -> False) -> NoDup (l1 ++ l2).
+Proof.
+  induction l1; intros l2 N1 N2 D; simpl; auto.
+  inversion N1; subst. constructor.
+  - rewrite in_app_iff. intros [H | H]; [contradiction | eapply D; [left; reflexivity | exact H]].
+  - apply IHl1; auto. intros x H1' H2'. eapply D; [right; exact H1' | exact H2'].
+Qed.
+
+Lemma filter_split_length : forall (A : Type) (f : A -> bool) l,
+  (length (filter f l) + length (filter (fun x => negb (f x)) l))%nat = length l.
+Proof. induction l; simpl; auto. destruct (f a); simpl; lia. Qed.
+
+(* ------------------------------------------------------------------ wrt_spots: set algebra and cardinality *)
+
+Theorem swap_spots_In : forall base exog endog s,
+  In s (swap_spots base exog endog) <-> (In s base /\ ~ In s exog) \/ In s endog.
+Proof.
+  intros. unfold swap_spots. rewrite sort_spots_In, in_app_iff, filter_In, negb_true_iff, smem_false. tauto.
+Qed.
+
+Theorem swap_spots_sorted : forall base exog endog, StronglySorted slt (swap_spots base exog endog).
+Proof. intros. apply sort_spots_sorted. Qed.
+
+(* cardinality: |unknowns| + |exogenized| = |endogenous cells| + |endogenized|, counting each cell once,
+   when the exogenized cells are endogenous cells and the endogenized cells are not *)
+Theorem swap_spots_length : forall base exog endog,
+  NoDup base -> incl exog base -> (forall s, In s endog -> ~ In s base) ->
+  (length (swap_spots base exog endog) + length (sort_spots exog))%nat
+  = (length base + length (sort_spots endog))%nat.
+Proof.
+  intros base exog endog ND Hex Hen.
+  set (keep := filter (fun s => negb (smem s exog)) base).
+  set (drop := filter (fun s => negb (negb (smem s exog))) base).
+  assert (L1 : length (swap_spots base exog endog) = (length keep + length (sort_spots endog))%nat).
+  { rewrite <- app_length. apply NoDup_same_length.
+    - apply sort_spots_NoDup.
+    - apply NoDup_app_disj; [apply NoDup_filter; auto | apply sort_spots_NoDup |].
+      intros x Hk Hn. apply filter_In in Hk. rewrite sort_spots_In in Hn. destruct Hk. eapply Hen; eauto.
+    - intros x. unfold swap_spots. rewrite sort_spots_In, !in_app_iff, sort_spots_In. tauto. }
+  assert (L2 : length drop = length (sort_spots exog)).
+  { apply NoDup_same_length.
+    - apply NoDup_filter; auto.
+    - apply sort_spots_NoDup.
+    - intros x. unfold drop. rewrite filter_In, negb_involutive, smem_In, sort_spots_In.
+      split; [tauto | intros H; split; auto]. }
+  assert (L3 : (length keep + length drop)%nat = length base)
+    by exact (filter_split_length _ (fun s => negb (smem s exog)) base).
+  lia.
+Qed.
